@@ -74,6 +74,10 @@ Fixpoint repr (W : world) (v : value) {struct v} : pyexpr :=
   | VDuration d => ECall [lit "XmlDuration"] [raw_dq d] []
   | VPeriod d => ECall [lit "XmlPeriod"] [raw_dq d] []
   | VStd k args => ECall [lit "datetime"; std_name k] (map EInt (std_repr_args k args)) []
+  (* dispatch order of repr_object: is_array, dict, is_model, **isinstance(obj, Enum)**, and only
+     then literal_value.  A member of a mixed-in enumeration (IntEnum, IntFlag, StrEnum,
+     (str|float|bytes, Enum)) is also an int/str/float/bytes; it is a [VEnum] here (the harness
+     classifies Enum members first) and is written as a member, never through literal_value. *)
   | VEnum c m => EName (snd c ++ [m])                (* f"{__qualname__}.{name}" *)
   | VList l => EList (map (repr W) l)
   | VTuple l => ETuple (map (repr W) l)               (* "()" or "(\n a,\n b,\n)" *)
